@@ -89,7 +89,8 @@ Calls ==
     Call("setfloat", <<>>, "vf", 0, "2.25", <<>>) }
   \cup (IF Sch = 2
           THEN { Call("setstr", <<>>, "s", 0, "a\"b\\c", <<>>), Call("setstr", <<>>, "s", 0, "${HOME}", <<>>),
-                 Call("setstr", <<>>, "s", 0, "", <<>>),
+                 Call("setstr", <<>>, "s", 0, "", <<>>), Call("setstr", <<>>, "s", 0, "pre-${U", <<>>),
+                 Call("setstr", <<>>, "s", 0, "a$b$", <<>>),
                  Call("addtsec", <<>>, "t", 0, "q\"r", <<>>), Call("addtsec", <<>>, "t", 0, "two words", <<>>),
                  Call("setstr", T1, "p", 0, "# /* x */", <<>>) }
           ELSE {})
